@@ -1,5 +1,7 @@
 package bgp
 
+import "testing"
+
 // Property registry of the bgpsim engine: for each property the plan generator
 // (workload + schedule/fault space) and the oracles that judge it.
 
@@ -7,11 +9,7 @@ type propDef struct {
 	Gen     func(seed uint64) *Plan
 	Oracles func(p *Plan) []Oracle
 	Setup   func(w *World)
-	Twin    func(t testingT, p *Plan, res *RunResult) // optional metamorphic second run
-}
-
-type testingT interface {
-	Fatalf(string, ...any)
+	Twin    func(t *testing.T, p *Plan, res *RunResult) // optional metamorphic second run
 }
 
 func pipeline(props ...string) func(p *Plan) []Oracle {
